@@ -133,6 +133,9 @@ def run_semantic(res, b, tier, seed, prop, make_cfgs, transform=None, n_quick=40
         correspondence=dict(stage="AST and bash script of the whole model pipeline (Model.Lexer, Model.Parser, Model.Transpile, Model.ConvBash) vs the implementation", compared=ncases, disagreements=len(dis)),
         generator_distribution=dict(statement_kinds=kinds, lines_printed=printed, exit_1=exit1),
         oracle_failures=len(fails),
+        semantic_models=dict(semcheck.SEM_STATS, rule="Lean Sem/Src (meaning of the AST) vs the reference interpreter, Lean Sem/Bash (meaning of the emitted "
+                             "lines) vs /bin/bash, on every generated program inside the scalar fragment; both = programs on which "
+                             "the two models were also compared with each other (instances of the semantic-preservation theorem)"),
     ))
     res.assumptions += ["the Python reference interpreter states the Go meaning (README caveats) correctly",
                         "/bin/bash 5.2 in the sandbox is the interpreter of the emitted script"]
@@ -156,7 +159,7 @@ def run_semantic(res, b, tier, seed, prop, make_cfgs, transform=None, n_quick=40
     if not real and (dis or not pr["ok"]):
         if dis:
             c, m, i = dis[0]
-            res.violation("correspondence", dict(stage="bash script", src=c.meta["src"], model=m[:4000], implementation=i[:4000],
+            res.violation("correspondence", dict(stage="semantic models" if m.startswith("SEM") else "bash script", src=c.meta["src"], model=m[:4000], implementation=i[:4000],
                                                  disagreements=len(dis),
                                                  what="Model.EmitBash and transpiler+converters/bash disagree on the script; the theorems no longer speak about this code; "
                                                       "the oracle found no program whose behaviour is wrong in %d programs" % ncases), no_input=True)
